@@ -204,25 +204,39 @@ type ExFunction struct {
 }
 
 func AsString(e Expression) string {
+	// One buffer for the whole expression: gluing the strings of the
+	// operands together at every level takes quadratic time for a long
+	// `a+a+a+...`.
+	var b strings.Builder
+	writeExpression(&b, e)
+	return b.String()
+}
+
+func writeExpression(b *strings.Builder, e Expression) {
 	switch v := e.(type) {
 	case int64:
-		return fmt.Sprintf("%d", v)
+		fmt.Fprintf(b, "%d", v)
 	case float64:
-		return fmt.Sprintf("%g", v)
+		fmt.Fprintf(b, "%g", v)
 	case string:
-		return fmt.Sprintf("'%s'", v)
+		fmt.Fprintf(b, "'%s'", v)
 	case ExColumn:
-		return fmt.Sprintf(`"%s"`, string(v))
+		fmt.Fprintf(b, `"%s"`, string(v))
 	case ExFunction:
-		var args []string
-		for _, a := range v.Args {
-			args = append(args, AsString(a))
+		fmt.Fprintf(b, `"%s"(`, v.F)
+		for i, a := range v.Args {
+			if i > 0 {
+				b.WriteString(`, `)
+			}
+			writeExpression(b, a)
 		}
-		return fmt.Sprintf(`"%s"(%s)`, v.F, strings.Join(args, `, `))
+		b.WriteString(`)`)
 	case ExBinaryOp:
-		return fmt.Sprintf(`%s%s%s`, AsString(v.Left), v.Op, AsString(v.Right))
+		writeExpression(b, v.Left)
+		b.WriteString(v.Op)
+		writeExpression(b, v.Right)
 	default:
-		return "bug"
+		b.WriteString("bug")
 	}
 }
 
